@@ -12,6 +12,7 @@ open OdfModel OdfModel.Xml OdfModel.LoadSax
                                                  meta scripts font-face-decls settings styles automatic-styles master-styles body
   state                                      -> ok parsing=<b> data=<s> root=<r> depth=<n> currdet=<b>
   fixxml <s>                                 -> ok <s>             __fixXmlPart
+  savetrees <tv> <10 forests>                -> ok <content> | <styles> | <meta> | <settings or ->   the trees save writes
   normev / evtree are not needed: the harness produces the events itself
   tree := E <ns> <local> <k> (<ns> <local> <value>)^k <m> tree^m | T <s> | C <s>   (as Drivers/Xml.lean)
 -/
@@ -62,6 +63,63 @@ def parseEvent (toks : List String) : Option Event :=
     if rest.isEmpty then pure (.start ⟨ns, l⟩ attrs) else none
   | _ => none
 
+abbrev P := StateT (List String) Option
+
+def tok : P String := do
+  match (← get) with
+  | [] => failure
+  | t :: r => set r; pure t
+
+def pstr : P Str := do
+  match Wire.dec (← tok) with
+  | some s => pure s
+  | none => failure
+
+def pnat : P Nat := do
+  match (← tok).toNat? with
+  | some n => pure n
+  | none => failure
+
+def rep {α} (p : P α) : Nat → P (List α)
+  | 0 => pure []
+  | n+1 => do let a ← p; let r ← rep p n; pure (a :: r)
+
+def forestOfList : List Node → Forest
+  | [] => .nil
+  | h :: t => .cons h (forestOfList t)
+
+partial def ptree : P Node := do
+  match (← tok) with
+  | "T" => return .text (← pstr)
+  | "C" => return .cdata (← pstr)
+  | "E" =>
+    let ns ← pstr; let l ← pstr
+    let k ← pnat
+    let attrs ← rep (do let a ← pstr; let b ← pstr; let v ← pstr; pure ((⟨a, b⟩ : QName), v)) k
+    let m ← pnat
+    let kids ← rep ptree m
+    return .elem ⟨ns, l⟩ attrs (forestOfList kids)
+  | _ => failure
+
+def pforest : P Forest := do
+  let n ← pnat
+  let ks ← rep ptree n
+  pure (forestOfList ks)
+
+/-- `savetrees <tv> <meta> <scripts> <fonts> <settings> <styles> <auto-unused> <master> <body> <usedC> <usedS>` (each a
+    forest `<n> tree^n`) -> the four part trees -/
+def saveTrees (toks : List String) : Option String :=
+  let p : P String := do
+    let tv ← pstr
+    let m ← pforest; let sc ← pforest; let ff ← pforest; let se ← pforest; let st ← pforest
+    let _au ← pforest; let ma ← pforest; let bo ← pforest; let uc ← pforest; let us ← pforest
+    let d : Doc := { metaS := m, scripts := sc, fontFace := ff, settings := se, styles := st, master := ma, body := bo }
+    pure (String.intercalate " | " [showNode (contentTree d uc), showNode (stylesTree d us), showNode (metaTree tv d),
+      if writesSettings d then showNode (settingsTree d) else "-"])
+  match p.run toks with
+  | some (r, []) => some r
+  | _ => none
+
 structure Session where
   loaded : Loaded := {}
   cur : Option St := none
@@ -91,6 +149,10 @@ def handle (s : Session) (line : String) : Session × String :=
         " depth=" ++ toString st.spine.length ++ " currdet=" ++ toString st.currDet ++ " names=" ++
         String.intercalate "," (st.names.map Wire.enc))
     | none => (s, "err no-part")
+  | "savetrees" :: rest =>
+    match saveTrees rest with
+    | some r => (s, "ok " ++ r)
+    | none => (s, "err bad-arg")
   | ["fixxml", w] =>
     match Wire.dec w with
     | some x => (s, "ok " ++ Wire.enc (fixXmlPart x))
